@@ -808,6 +808,7 @@ func (x *twinCtx) follower(b *replica, ss pb.Snapshot, cut uint64) bool {
 			x.fail("stream-error", variant, cut, 0, tstate{}, tstate{}, err.Error())
 			return false
 		}
+		sink.deliver()
 		if sink.refused > 0 {
 			x.fail("chunk-refused", variant, cut, 0, tstate{}, tstate{}, fmt.Sprintf("%d streamed chunks refused by the receiver", sink.refused))
 			return false
@@ -890,20 +891,31 @@ func (x *twinCtx) follower(b *replica, ss pb.Snapshot, cut uint64) bool {
 	return x.suffix(f, variant, cut, 0)
 }
 
+// chunkSink queues the streamed chunks as handed over (no copy) and delivers
+// them to the receiver once the writer is done, as the transport job does
+// from its own goroutine: a chunk must not share its buffer with the writer.
 type chunkSink struct {
 	to      uint64
 	recv    *transport.Chunk
 	refused int
+	queued  []pb.Chunk
 }
 
 func (s *chunkSink) Receive(c pb.Chunk) (bool, bool) {
 	c.DeploymentId = deploymentID
-	if !s.recv.Add(c) {
-		s.refused++
-		return false, false
-	}
+	s.queued = append(s.queued, c)
 	return true, false
 }
+
+func (s *chunkSink) deliver() {
+	for _, c := range s.queued {
+		if !s.recv.Add(c) {
+			s.refused++
+		}
+	}
+	s.queued = nil
+}
+
 func (s *chunkSink) Close() error        { return nil }
 func (s *chunkSink) ShardID() uint64     { return twShard }
 func (s *chunkSink) ToReplicaID() uint64 { return s.to }
